@@ -301,7 +301,7 @@ def r1_table(ctx):
             roles["hdrs"] = i
         elif "SystemTime" in s:
             roles["mtime"] = i
-        elif "HeaderValue" in s:
+        elif "HeaderValue" in s or s == "std::option::Option<&[u8]>":
             roles["etag"] = i
     if set(roles) != {"hdrs", "mtime", "etag"}:
         ctx.violation("C04.R1", "C04.R1|params", "UNRECOGNISED parameters of %s" % cond)
